@@ -15,6 +15,9 @@ scenario = {'ports': [{'id': 'p0', 'kind': K, 'value': v}], 'script': [cmd...]}
        ['disable', pid] / ['enable', pid]      (only ports without an expression)
        ['set+fault', pid, value, faulty_pid, kind]   like 'set', and the next driver read of harness port `faulty_pid` raises `kind`
                              once (OSError / ValueError / RuntimeError / TimeoutError): the pass must go on
+       ['set+add-during-read', pid, value]   like 'set' on a harness port, and while the polling pass is suspended in the driver
+                             read of `pid` another task adds an unrelated (disabled, unreferenced) virtual port to the hub; it is
+                             removed again once the hub has settled: the pass must go on and the change must be handled
        ['readd', pid, value]  a virtual port without expression is disabled, removed, created again under the same id,
                              enabled and given `value`
   after every command the hub runs polling passes until nothing changes any more (no latencies in this stream).
@@ -99,8 +102,12 @@ async def run_scenario(sc):
             self.kind = kind
             self.store = value
             self.fault_once = None
+            self.during_read = None
 
         async def read_value(self):
+            if self.during_read:
+                cb, self.during_read = self.during_read, None
+                await asyncio.create_task(cb())
             if self.fault_once:
                 kind, self.fault_once = self.fault_once, None
                 raise {'OSError': OSError, 'ValueError': ValueError, 'RuntimeError': RuntimeError,
@@ -213,6 +220,7 @@ async def run_scenario(sc):
 
     quiescent = await settle()
     error = None
+    extra_n = [0]
     try:
         for cmd in sc['script']:
             op = cmd[0]
@@ -229,6 +237,20 @@ async def run_scenario(sc):
                     p.store = v
                 else:
                     await p.transform_and_write_value(v)
+            elif op == 'set+add-during-read':
+                extra_n[0] += 1
+                extra_args = {'driver': core_vports.VirtualPort, 'id_': 'extra%d' % extra_n[0], 'type_': core_ports.TYPE_NUMBER,
+                              'min_': None, 'max_': None, 'integer': False, 'step': None, 'choices': None}
+                extra = []
+
+                async def add_extra():
+                    extra.extend(await core_ports.load([extra_args], trigger_add=False))
+                p.during_read = add_extra
+                p.store = dec(cmd[2])
+                await settle()
+                p.during_read = None
+                for x in extra:
+                    await x.remove(persisted_data=False)
             elif op == 'set':
                 v = dec(cmd[2])
                 if kinds[cmd[1]].startswith('h'):
